@@ -1,4 +1,5 @@
 import SwcVerif.Props.C12
+import SwcVerif.Props.C12Gen
 #print axioms C12.translate_moves
 #print axioms C12.translate_origin_root
 #print axioms C12.scale_origin
